@@ -21,7 +21,8 @@ from lib.hist import KVStore, SQLStore
 THEOREMS_TIED = ["C16_size_iff", "C16_recent_iff", "C16_kind_iff", "C16_whitelist_iff", "C16_blacklist_iff", "C16_pow_iff",
                  "C16_hellthread_iff", "C16_service_iff", "C16_dynamic_iff", "C16_pipeline", "C16_refresh_never_empty",
                  "C16_refresh_result", "C16_nip05_rejects_iff", "C16_nip05_unenforced_stays", "C16_nip05_never_shrinks",
-                 "C16_nip05_adds_only_author", "C16_nip05_candidate_admitted", "C16_nip05_other_kinds_untouched"]
+                 "C16_nip05_adds_only_author", "C16_nip05_candidate_admitted", "C16_nip05_other_kinds_untouched",
+                 "C16_config_fail_closed", "C16_config_unresolved_no_chain", "C16_config_all_ok"]
 
 NOW = 1700000000
 A, B, C = "aa" * 32, "bb" * 32, "cc" * 32
@@ -967,6 +968,55 @@ def _judge(report, where, case, built, construct_exc, verdicts, seen=None):
     return "refuses-every-event" if unusable else "control"
 
 
+_DRV = {}
+
+
+def _entry_class(entry):
+    """what a configured entry is, decided by the harness itself: unresolved / notCallable / a function"""
+    import importlib
+    if not isinstance(entry, str) or "." not in entry:
+        return "unresolved", None
+    mod, _, name = entry.rpartition(".")
+    try:
+        obj = getattr(importlib.import_module(mod), name)
+    except Exception:
+        return "unresolved", None
+    return ("fn", obj) if callable(obj) else ("notCallable", None)
+
+
+def _model_chain(report, case, c, chain, built, verdicts):
+    """tie of validators.get_validator to the Lean `getValidator` (Props/C16Config.lean): does a chain exist, and what does it say"""
+    if isinstance(chain, str):
+        return                       # a scalar for the list: the entries are its characters; outside the modelled fragment
+    drv = _DRV.get("drv")
+    if drv is None:
+        drv = _DRV["drv"] = common.Driver()
+    for role in ("violating", "conforming"):
+        e = mk_ev(**case["events"][role])
+        entries = []
+        for entry in chain:
+            k, f = _entry_class(entry)
+            if k != "fn":
+                entries.append(k)
+                continue
+            try:
+                f(e, c)
+                entries.append("ok")
+            except Exception as ex:
+                entries.append("reject" if type(ex).__name__ in ("StorageError", "VerificationError") else "raises")
+        m = drv.call({"op": "adm.getValidator", "entries": entries})
+        if built:
+            vd = verdicts.get(role)
+            impl = None if vd is None else ("ok" if not vd["refused"] else "refused")
+        else:
+            impl = "no-chain"
+        model = "no-chain" if m is None else ("ok" if m == "ok" else "refused")
+        if impl is not None and impl != model:
+            report.correspondence_break("validators.get_validator (chain resolution)", {"misconfigured": case, "role": role, "entries": entries},
+                                        impl, model)
+        report.count("misconfig_model_chain_" + model)
+
+
 def misconfig_direct(report, loop, case, seen=None):
     """validators.get_validator on the chain, then the returned coroutine function on both events"""
     from nostr_relay import validators
@@ -990,6 +1040,7 @@ def misconfig_direct(report, loop, case, seen=None):
                 vd["refused"], vd["reason"] = True, str(ex) or type(ex).__name__
             verdicts[role] = vd
     out = _judge(report, "get_validator", case, built, exc, verdicts, seen)
+    _model_chain(report, case, c, chain, built, verdicts)
     report.case(("misconfigured", "get_validator", repr(chain), repr(case["events"])), nontrivial=True,
                 sample={"misconfigured": case["family"], "level": "get_validator", "outcome": out})
     report.count("misconfig_get_validator_" + case["family"])
